@@ -34,7 +34,10 @@ InvalidSess == {"garbage", "expired", "tampered", "other-instance", "future"}
 Sess        == {"none"} \cup ValidSess \cup InvalidSess
 OldPw       == {"none", "right", "wrong"}
 Endpoints   == {"add", "remove", "set-admin", "list", "list-full", "update", "authenticate"}
-Bodies      == {"ok", "empty-user", "empty-pw", "malformed", "wrongtype", "extra-field"}
+\* "missing-cred": the credential members (session, oldpassword, password) are absent from the JSON document altogether - sent
+\* right after a request of the same endpoint that carried an administrator's credentials (a recycled request object must not
+\* remember them)
+Bodies      == {"ok", "empty-user", "empty-pw", "malformed", "wrongtype", "extra-field", "missing-cred"}
 
 Owner(s) == CASE s = "tok-alice" -> "alice" [] s = "tok-bob" -> "bob" [] s = "tok-Alice" -> "Alice"
               [] s = "tok-eve-staleadmin" -> "eve" [] OTHER -> ""
@@ -59,7 +62,7 @@ Refused == [status |-> "refused", users |-> users, list |-> FALSE, token |-> ""]
 
 (* What C06 demands of a request.                                          *)
 Outcome(ep, s, o, t, b, adm) ==
-    IF b \in {"malformed", "wrongtype", "empty-user"} THEN Refused
+    IF b \in {"malformed", "wrongtype", "empty-user", "missing-cred"} THEN Refused
     ELSE IF ep = "authenticate" THEN
         IF b = "empty-pw" \/ o # "right" \/ ~Known(t) THEN Refused
         ELSE [status |-> "ok", users |-> users, list |-> FALSE, token |-> t]
@@ -85,9 +88,10 @@ Request(ep, s, o, t, b, adm) ==
     \* prune combinations that do not exist on the wire
     /\ ep # "update" /\ ep # "authenticate" => o = "none"
     /\ ep = "authenticate" => (s = "none" /\ o # "none")
-    /\ ep \in {"list", "list-full"} => (t = "alice" /\ b \in {"ok", "malformed", "wrongtype", "extra-field"})
+    /\ ep \in {"list", "list-full"} => (t = "alice" /\ b \in {"ok", "malformed", "wrongtype", "extra-field", "missing-cred"})
     /\ ep \notin {"add", "set-admin"} => adm = FALSE
     /\ ep \notin {"add", "update", "authenticate"} => b # "empty-pw"
+    /\ b = "missing-cred" => (s = "none" /\ o = (IF ep = "authenticate" THEN "right" ELSE "none"))
     /\ LET out == Outcome(ep, s, o, t, b, adm) IN
        /\ users' = out.users
        /\ depth' = IF out.users # users THEN depth + 1 ELSE depth
